@@ -1,103 +1,123 @@
 import Logrange.Model.Outcome
+import Logrange.Model.LqlLexer
 import Logrange.Generated.C13
 /-!
-# Recursion depth as a resource (C13, finding F25)
+# Recursion depth as a resource (C13, findings F25 / F25b)
 
-`lql.ParseLql` is a recursive-descent parser (participle): every `(` of an expression enters `Parse` methods again
-and so uses a number of goroutine stack bytes that grows linearly with the nesting depth; nothing in `/repo` bounds
-the depth, and Go's stack overflow (`runtime: goroutine stack exceeds 1000000000-byte limit`) is a *fatal error*,
-not a panic that could be recovered. The participle engine itself is not modelled for C13; this file models only the
-resource: scanning the text, an opening parenthesis needs one more frame than the current depth, and with a stack
-of `budget` frames the parser dies when the depth would exceed it. (Parentheses inside quoted strings do not nest in
-the real lexer; the model is compared with the implementation on texts without quotes.)
+`lql.ParseLql / ParseExpr / ParseSource` run a recursive-descent parser (participle): every `(` **token** of an expression or
+of a function call enters `Parse` methods again and so uses goroutine stack that grows linearly with the nesting depth; Go's
+stack overflow is a *fatal error*, not a recoverable panic. The participle engine is not modelled for C13; this file models
+the resource, on the token stream the parser really sees:
+
+* `tscan budget` walks the text with the lexer of C12's model (`Lql.lexOne`, imported read-only; the real lexer is lazy, so a
+  lexer error is met *after* the parentheses before it have been entered): an Operator token `(` needs one more frame than
+  the current depth — with a stack of `budget` frames the process dies (`.panic`) when the depth would exceed it; a lexer
+  error is the parser's error (`.err`); at the end the deepest nesting reached is returned.
+* `bscan max` is `checkNesting` of commit 8131efe, byte for byte: its own scan over the text that skips what *it* takes for
+  string literals (`"` … `"` with `\`-escapes, `'` … `'`) and counts `(` / `)`. It does not know the `{…}` tags token, inside
+  which a quote character is just a byte for the lexer — the hole of finding F25b.
+* the guard kinds (`Generated.C13.lqlGuardKind`): 0 = none, 1 = `bscan`, 2 = counting on tokens with the same lexer
+  (`tscan max` itself; proposed repair F25b).
 -/
 namespace Logrange.Nesting
 open Logrange
 
-def scan (budget : Nat) : Bytes → Nat → Nat → Outcome Nat
-  | [], _, mx => .ok mx
-  | c :: r, cur, mx =>
-    if c = 40 then
-      if budget < cur + 1 then .panic "stack overflow (fatal)" else scan budget r (cur + 1) (max mx (cur + 1))
-    else if c = 41 then scan budget r (cur - 1) mx
-    else scan budget r cur mx
+def isOpen (t : Lql.Tok) : Bool := t.t == .operator && t.v == [40]
+def isClose (t : Lql.Tok) : Bool := t.t == .operator && t.v == [41]
 
-/-- deepest nesting reached, or the fatal stack overflow -/
-def parse (budget : Nat) (s : Bytes) : Outcome Nat := scan budget s 0 0
+/-- the parser's stack use over the lazily lexed token stream -/
+def tscan (budget : Nat) : Nat → Bytes → Nat → Nat → Outcome Nat
+  | 0, _, _, _ => .outOfFuel
+  | fuel + 1, s, cur, mx =>
+    if s.isEmpty then .ok mx
+    else match Lql.lexOne s with
+      | none => .err                                            -- invalid token: the parser reports it
+      | some (none, n) => tscan budget fuel (s.drop n) cur mx   -- blanks
+      | some (some t, n) =>
+        if isOpen t then
+          if budget < cur + 1 then .panic "stack overflow (fatal)" else tscan budget fuel (s.drop n) (cur + 1) (max mx (cur + 1))
+        else if isClose t then tscan budget fuel (s.drop n) (cur - 1) mx
+        else tscan budget fuel (s.drop n) cur mx
 
-/-- the nesting guard (`checkNesting`, proposed repair of F25): before the text goes to the parser, the same depth counter
-runs with the constant `cMaxNestingDepth` as its limit and the text is refused with an error beyond it. `guard` and `max` are
-the regenerated facts `Generated.C13.lqlNestingGuard` / `lqlMaxNesting` (`false` / `0` on a tree without the guard).
-(The real guard skips string literals, as the lexer does; the model counts every parenthesis, in the guard and in the
-parser alike, and is compared with the implementation on texts without quotes.) -/
-def parseG (guard : Bool) (max budget : Nat) (s : Bytes) : Outcome Nat :=
-  if guard = true ∧ (scan max s 0 0).isPanic = true then .err else scan budget s 0 0
+/-- `for i++; i < len(s) && s[i] != '"'; i++ { if s[i] == '\\' { i++ } }` and the outer `i++`: what is left after the literal -/
+def skipDQ : Bytes → Bytes
+  | [] => []
+  | c :: r => if c = 34 then r else if c = 92 then (match r with | [] => [] | _ :: r' => skipDQ r') else skipDQ r
+
+/-- `for i++; i < len(s) && s[i] != '\''; i++ {}` and the outer `i++` -/
+def skipSQ : Bytes → Bytes
+  | [] => []
+  | c :: r => if c = 39 then r else skipSQ r
+
+/-- `checkNesting` of commit 8131efe: `true` = the text is refused -/
+def bscan (max : Nat) : Nat → Bytes → Nat → Bool
+  | 0, _, _ => false
+  | _ + 1, [], _ => false
+  | fuel + 1, c :: r, d =>
+    if c = 34 then bscan max fuel (skipDQ r) d
+    else if c = 39 then bscan max fuel (skipSQ r) d
+    else if c = 40 then (if max < d + 1 then true else bscan max fuel r (d + 1))
+    else if c = 41 then bscan max fuel r (d - 1)
+    else bscan max fuel r d
+
+/-- does the guard of the given kind refuse the text? -/
+def refuses (kind max : Nat) (s : Bytes) : Bool :=
+  if kind = 1 then bscan max (s.length + 1) s 0
+  else if kind = 2 then (tscan max (s.length + 1) s 0 0).isPanic
+  else false
+
+/-- a parser entry point: the guard (an error), then the parser -/
+def parseG (kind max budget : Nat) (s : Bytes) : Outcome Nat :=
+  if refuses kind max s = true then .err else tscan budget (s.length + 1) s 0 0
 
 /-- `lql.ParseLql / ParseExpr / ParseSource` as far as stack use goes, for the tree as it is now -/
 def parseNow (budget : Nat) (s : Bytes) : Outcome Nat :=
-  parseG Generated.C13.lqlNestingGuard Generated.C13.lqlMaxNesting budget s
+  parseG Generated.C13.lqlGuardKind Generated.C13.lqlMaxNesting budget s
 
-theorem scan_noPanic (budget : Nat) : ∀ (s : Bytes) (cur mx : Nat), cur + s.count 40 ≤ budget →
-    (scan budget s cur mx).isPanic = false
-  | [], _, _, _ => rfl
-  | c :: r, cur, mx, h => by
-    unfold scan
-    by_cases hc : c = 40
-    · subst hc
-      simp only [List.count_cons_self] at h
-      simp only [if_true]
-      split
-      · omega
-      · exact scan_noPanic budget r (cur + 1) _ (by omega)
-    · have hcnt : (c :: r).count 40 = r.count 40 := by
-        rw [List.count_cons]; simp [hc]
-      rw [hcnt] at h
-      simp only [hc, if_false]
-      split
-      · exact scan_noPanic budget r (cur - 1) mx (by omega)
-      · exact scan_noPanic budget r cur mx h
-
-theorem scan_overflow (budget : Nat) : ∀ (k cur mx : Nat), cur + k = budget →
-    (scan budget (List.replicate (k + 1) 40) cur mx).isPanic = true
-  | 0, cur, mx, h => by
-    simp only [List.replicate, scan, if_true]
-    split
-    · rfl
-    · omega
-  | k + 1, cur, mx, h => by
-    rw [List.replicate_succ]
-    unfold scan
-    simp only [if_true]
-    split
-    · rfl
-    · exact scan_overflow budget k (cur + 1) _ (by omega)
+/-- the class of finding F25b: the byte scan lets the text pass although its token nesting exceeds the limit -/
+def holeClass (max : Nat) (s : Bytes) : Bool :=
+  !bscan max (s.length + 1) s 0 && (tscan max (s.length + 1) s 0 0).isPanic
 
 /-- more stack never hurts -/
-theorem scan_mono (b b' : Nat) (hb : b ≤ b') : ∀ (s : Bytes) (cur mx mx' : Nat),
-    (scan b s cur mx).isPanic = false → (scan b' s cur mx').isPanic = false
-  | [], _, _, _, _ => rfl
-  | c :: r, cur, mx, mx', h => by
-    unfold scan at h ⊢
-    by_cases hc : c = 40
-    · subst hc
-      simp only [if_true] at h ⊢
-      split at h
-      · cases h
-      · split
-        · omega
-        · exact scan_mono b b' hb r (cur + 1) _ _ h
-    · simp only [hc, if_false] at h ⊢
+theorem tscan_mono (b b' : Nat) (hb : b ≤ b') : ∀ (fuel : Nat) (s : Bytes) (cur mx mx' : Nat),
+    (tscan b fuel s cur mx).isPanic = false → (tscan b' fuel s cur mx').isPanic = false
+  | 0, _, _, _, _, _ => rfl
+  | fuel + 1, s, cur, mx, mx', h => by
+    unfold tscan at h ⊢
+    split
+    · rfl
+    · rename_i hne
+      simp only [hne] at h
       split
-      · rename_i h41; simp only [h41, if_true] at h; exact scan_mono b b' hb r (cur - 1) mx mx' h
-      · rename_i h41; simp only [h41, if_false] at h; exact scan_mono b b' hb r cur mx mx' h
+      · rfl
+      · rename_i n heq
+        simp only [heq] at h
+        exact tscan_mono b b' hb fuel _ cur mx mx' h
+      · rename_i t n heq
+        simp only [heq] at h
+        split
+        · rename_i ho
+          simp only [ho, if_true] at h
+          by_cases hlt : b < cur + 1
+          · simp [hlt, Outcome.isPanic] at h
+          · simp only [hlt, if_false] at h
+            have hlt' : ¬ b' < cur + 1 := by omega
+            simp only [hlt', if_false]
+            exact tscan_mono b b' hb fuel _ (cur + 1) _ _ h
+        · rename_i ho
+          simp only [ho] at h
+          split
+          · rename_i hc; simp only [hc, if_true] at h; exact tscan_mono b b' hb fuel _ (cur - 1) mx mx' h
+          · rename_i hc; simp only [hc] at h; exact tscan_mono b b' hb fuel _ cur mx mx' h
 
-/-- **with the guard, no text exhausts a stack that holds `max` frames** -/
-theorem parseG_guarded (max budget : Nat) (hb : max ≤ budget) (s : Bytes) : (parseG true max budget s).isPanic = false := by
-  unfold parseG
+/-- **with the token guard, no text exhausts a stack that holds `max` frames** -/
+theorem parseG_token_guarded (max budget : Nat) (hb : max ≤ budget) (s : Bytes) : (parseG 2 max budget s).isPanic = false := by
+  unfold parseG refuses
+  simp only [show (2 : Nat) ≠ 1 by decide, if_false, if_true]
   split
   · rfl
   · rename_i hc
-    simp only [true_and, Bool.not_eq_true] at hc
-    exact scan_mono max budget hb s 0 0 0 hc
+    simp only [Bool.not_eq_true] at hc
+    exact tscan_mono max budget hb _ s 0 0 0 hc
 
 end Logrange.Nesting
